@@ -49,7 +49,7 @@ func (c10) NumCases(tier string) int {
 }
 
 func (c10) Rule() string {
-	return "case = generated federation layout (1-3 subgraphs: entities, keys, @requires/@provides/@shareable, interfaces, unions, lists; 1 in 8 a single plain subgraph) + hash-defined universe (nullable positions null at rate 2/16, lists of 0-3 items) x " + fmt.Sprint(opsPerCase) + " valid-by-construction queries rewritten to use @defer: new untyped / typed inline fragments and named fragment spreads around random groups of selections (nested, sibling groups in one selection set, inside lists, at the root), @defer on the generator's own type-conditioned fragments under interfaces/unions, labels, if: true / false / variable (given, default only), a deferred field repeated outside its fragment (fully or partly). Every second query is 'plain': re-drawn until it is free of the statically recognisable shapes that trip over already listed defects (risk.go: defer in an impossible type branch, composite field shared between defer scopes, defer without own leaf fields, deferred @requires field, defer below a list below a type-narrowed field, abstract fragment inside another abstract parent); the others are unrestricted and carry these shape facts in the match of every violation. Each query runs (D) deferred on one gateway under a gated transport that holds every subgraph request arriving after the initial frame and releases them one at a time in every order (odometer over the decision tree when it has <= maxSchedules leaves, PRNG-drawn orders otherwise), once releasing all parked requests together and twice un-gated, all under -race; (A) with every @defer removed and (B) with if:false everywhere (literal / one variable) on two further gateways; plus fault runs (one deferred request fails in one of 7 ways) judged by the stream grammar and termination only. Oracles: reconstruction merge(initial, incrementals at pending.path++subPath) == data(A) == data(B) (canonical JSON, key order ignored); stream grammar over the writer calls (one JSON object per flush, ids announced once, delivered only while pending, completed exactly once and only after announced, hasNext false exactly on the last frame, Complete() once after the last frame, nothing written afterwards, no overlapping writer calls); termination = bounded progress after all gates are open, left to the framework watchdog. Non-trivial query = its stream announced >= 1 id, delivered >= 1 incremental payload in >= 2 frames and the reconstruction was compared; distinct by hash of (layout, query, variables)."
+	return "case = generated federation layout (1-3 subgraphs: entities, keys, @requires/@provides/@shareable, interfaces, unions, lists; 1 in 8 a single plain subgraph) + hash-defined universe (nullable positions null at rate 2/16, lists of 0-3 items) x " + fmt.Sprint(opsPerCase) + " valid-by-construction queries rewritten to use @defer: new untyped / typed inline fragments and named fragment spreads around random groups of selections (nested, sibling groups in one selection set, inside lists, at the root), @defer on the generator's own type-conditioned fragments under interfaces/unions, labels, if: true / false / variable (given, default only), a deferred field repeated outside its fragment (fully or partly). Also: one deferred fragment over 2-3 different composite fields each of which is also selected (thinly) outside the fragment, at the root, nested and in lists (the fragment is mounted below several sibling objects of the initial response). Every second query is 'plain': re-drawn until it is free of the statically recognisable shapes of OPEN findings (risk.go: composite field shared between two defer scopes, deferred @requires field, abstract fragment inside another abstract parent); the others are unrestricted; all shape facts (also: defer in an impossible type branch, defer without own leaf fields, defer below a list below a type-narrowed field, composite field deferred and also not deferred) go into the match of every violation. HISTORY family (reuse.go): the normalised operations and request contexts the engine produced for the case's deferred queries are planned one after the other by ONE re-used plan.Planner (+postprocess), followed by a defer-free operation; every plan must equal its own canonical reflection dump taken when Planner.Plan returned it, and, executed afterwards through the engine's resolver (ResolveGraphQLDeferResponse), must still satisfy the grammar and reconstruct (judged for queries whose engine-level run was clean). Each query runs (D) deferred on one gateway under a gated transport that holds every subgraph request arriving after the initial frame and releases them one at a time in every order (odometer over the decision tree when it has <= maxSchedules leaves, PRNG-drawn orders otherwise), once releasing all parked requests together and twice un-gated, all under -race; (A) with every @defer removed and (B) with if:false everywhere (literal / one variable) on two further gateways; plus fault runs (one deferred request fails in one of 7 ways) judged by the stream grammar and termination only. Oracles: reconstruction merge(initial, incrementals at pending.path++subPath) == data(A) == data(B) (canonical JSON, key order ignored); stream grammar over the writer calls (one JSON object per flush, ids announced once, delivered only while pending, completed exactly once and only after announced, hasNext false exactly on the last frame, Complete() once after the last frame, nothing written afterwards, no overlapping writer calls); termination = bounded progress after all gates are open, left to the framework watchdog. Non-trivial query = its stream announced >= 1 id, delivered >= 1 incremental payload in >= 2 frames and the reconstruction was compared; distinct by hash of (layout, query, variables)."
 }
 
 func (c10) Assumptions() []string {
@@ -63,7 +63,7 @@ func (c10) Assumptions() []string {
 }
 
 func (c10) RequiredCounters(string) []string {
-	return []string{"queries", "deferred_executions", "streams_with_pending", "frames", "ids_announced", "ids_completed", "incremental_items_merged", "reconstructions_compared", "iffalse_compared", "gated_schedules", "schedules_with_2plus_requests_parked", "queries_with_2plus_completion_orders", "free_runs", "fault_runs", "lazy_pending_announcements", "items_with_subpath", "queries_plain", "batch_release_runs", "labels_on_pending"}
+	return []string{"queries", "deferred_executions", "streams_with_pending", "frames", "ids_announced", "ids_completed", "incremental_items_merged", "reconstructions_compared", "iffalse_compared", "gated_schedules", "schedules_with_2plus_requests_parked", "queries_with_2plus_completion_orders", "free_runs", "fault_runs", "lazy_pending_announcements", "items_with_subpath", "queries_plain", "batch_release_runs", "labels_on_pending", "reuse_planners", "reuse_defer_plans", "reuse_plans_compared_with_their_dump_when_returned", "reuse_plans_executed", "reuse_reconstructions_compared", "shape:several-composites-of-one-defer-also-outside"}
 }
 
 const opsPerCase = 4
@@ -446,6 +446,7 @@ func (p c10) Run(c *fw.Ctx, idx int) fw.Result {
 	res.Observe("layout_features", featureString(prof))
 	maxSched := maxSchedules(c.Tier)
 	var keys []string
+	var reuse []*reuseItem
 	for k := 0; k < opsPerCase; k++ {
 		op := gen.DefaultOpProfile(r)
 		op.MaxDepth = 2 + r.IntN(3)
@@ -478,11 +479,22 @@ func (p c10) Run(c *fw.Ctx, idx int) fw.Result {
 		}
 		viaVar := r.IntN(2) == 0
 		schedRng := rand.New(rand.NewPCG(r.Uint64(), r.Uint64()))
-		key, ok := p.checkQuery(c, e, &res, df, facts, viaVar, schedRng, maxSched, featureString(prof))
+		key, ok, ri := p.checkQuery(c, e, &res, df, facts, viaVar, schedRng, maxSched, featureString(prof))
+		if ri != nil {
+			reuse = append(reuse, ri)
+		}
 		if ok {
 			keys = append(keys, key)
 		}
 	}
+	// history trigger: the case's deferred operations planned by ONE re-used planner (reuse.go)
+	e.reusePhase(&res, reuse, func(extra map[string]any) map[string]any {
+		d := layoutDetail()
+		for k, v := range extra {
+			d[k] = v
+		}
+		return d
+	})
 	res.Keys = keys
 	res.Key = fw.HashKey("c10", idx)
 	res.Nontrivial = len(keys) > 0
@@ -490,7 +502,7 @@ func (p c10) Run(c *fw.Ctx, idx int) fw.Result {
 }
 
 // checkQuery runs every variant and schedule of one deferred query and records the verdicts.
-func (p c10) checkQuery(c *fw.Ctx, e *env, res *fw.Result, df *deferred, facts riskFacts, viaVar bool, schedRng *rand.Rand, maxSched int, features string) (string, bool) {
+func (p c10) checkQuery(c *fw.Ctx, e *env, res *fw.Result, df *deferred, facts riskFacts, viaVar bool, schedRng *rand.Rand, maxSched int, features string) (string, bool, *reuseItem) {
 	vD := mkVariant(df.doc, df.vars)
 	docA, varsA := df.withoutDefer()
 	vA := mkVariant(docA, varsA)
@@ -510,7 +522,7 @@ func (p c10) checkQuery(c *fw.Ctx, e *env, res *fw.Result, df *deferred, facts r
 	for _, v := range []variant{vD, vA, vB} {
 		if _, gerrs := gqlparser.LoadQuery(e.superGql, v.text); gerrs != nil {
 			res.Broken("operation self-check: "+gerrs.Error(), detail(map[string]any{"rejected": v.text}))
-			return "", false
+			return "", false, nil
 		}
 	}
 	res.Count("queries", 1)
@@ -525,13 +537,14 @@ func (p c10) checkQuery(c *fw.Ctx, e *env, res *fw.Result, df *deferred, facts r
 	} else {
 		res.Count("queries_plain", 1)
 	}
-	for name, on := range map[string]bool{"defer_in_impossible_type_branch": facts.ImpossibleBranch, "composite_field_in_several_defer_scopes": facts.CompositeInSeveralScopes, "defer_without_own_fields": facts.DeferWithoutOwnFields, "leaf_field_in_several_defer_scopes(not a risk)": facts.LeafInSeveralScopes, "deferred_requires_field": facts.DeferredRequires, "defer_below_list_below_narrowed_field": facts.ListBelowNarrowedField, "abstract_fragment_in_other_abstract_parent_with_defer": facts.AbstractInAbstractWithDefer} {
+	for name, on := range map[string]bool{"defer_in_impossible_type_branch": facts.ImpossibleBranch, "composite_field_in_several_defer_scopes": facts.CompositeInSeveralScopes, "composite_field_deferred_and_not_deferred": facts.CompositeDeferredAndNot, "defer_without_own_fields": facts.DeferWithoutOwnFields, "leaf_field_in_several_defer_scopes(not a risk)": facts.LeafInSeveralScopes, "deferred_requires_field": facts.DeferredRequires, "defer_below_list_below_narrowed_field": facts.ListBelowNarrowedField, "abstract_fragment_in_other_abstract_parent_with_defer": facts.AbstractInAbstractWithDefer} {
 		if on {
 			res.Count("trigger:"+name, 1)
 		}
 	}
 	reported := map[string]bool{}
 	cleanStreamFinding := false
+	anyDeferFinding := false
 	report := func(fs []finding) {
 		for _, f := range fs {
 			s := f.sig()
@@ -547,6 +560,9 @@ func (p c10) checkQuery(c *fw.Ctx, e *env, res *fw.Result, df *deferred, facts r
 			}
 			if strings.HasPrefix(f.kind, "stream.") && f.match["tier"] == "clean" {
 				cleanStreamFinding = true
+			}
+			if f.match["tier"] != "fault" {
+				anyDeferFinding = true
 			}
 			d := detail(f.detail)
 			if c.Replay {
@@ -565,11 +581,11 @@ func (p c10) checkQuery(c *fw.Ctx, e *env, res *fw.Result, df *deferred, facts r
 		if b.errCls != "" {
 			res.Observe("base_execute_error_classes", b.errCls)
 		}
-		return "", false
+		return "", false, nil
 	}
 	if err := e.compareReference(vA, b); err != nil {
 		res.Broken(err.Error(), detail(nil))
-		return "", false
+		return "", false, nil
 	}
 	switch b.refOK {
 	case 1:
@@ -659,7 +675,7 @@ func (p c10) checkQuery(c *fw.Ctx, e *env, res *fw.Result, df *deferred, facts r
 		res.Count("free_runs", 1)
 	}
 	if an0 == nil {
-		return "", false
+		return "", false, nil
 	}
 	if an0.streamed && deferredReqs > 0 {
 		gated := func(sp schedPlan) (*run, bool) {
@@ -752,7 +768,13 @@ func (p c10) checkQuery(c *fw.Ctx, e *env, res *fw.Result, df *deferred, facts r
 	if nontrivial && res.Sample == nil {
 		res.Sample = sample
 	}
-	return fw.HashKey(e.l.SuperSDL, e.l.Describe, vD.text, vD.vars), nontrivial
+	// for the planner re-use phase: the normalised operation and request context of this query
+	var ri *reuseItem
+	cp := &captured{}
+	if rc := executeCapturing(e.gD, vD.text, vD.vars, cp); !rc.hung && rc.err == nil && rc.panicMsg == "" && cp.ok {
+		ri = &reuseItem{vD: vD, cp: cp, b: b, shapes: shapeString(df.shapes), cleanAt: !anyDeferFinding}
+	}
+	return fw.HashKey(e.l.SuperSDL, e.l.Describe, vD.text, vD.vars), nontrivial, ri
 }
 
 // parseChoice rebuilds a chooser's executed sequence from its signature ("c/n c/n …").
